@@ -36,6 +36,7 @@ def actSexp : Act → Sexp
   | .condFalse b => .list [.atom "condFalse", ofBool b]
   | .condTrue => .list [.atom "condTrue"]
   | .name n m al => .list [.atom "name", ofChars n, ofBool m, ofBool al]
+  | .nameL n m al => .list [.atom "nameL", ofChars n, ofBool m, ofBool al]
 
 def kindSexp : Kind → Sexp
   | .lit m => .list [.atom "lit", ofChars m]
